@@ -3033,7 +3033,7 @@ def update_working_tree(
         full_path = _tree_to_fs_path(repo_path, path, tree_encoding)
         try:
             current_stat = os.lstat(full_path)
-        except FileNotFoundError:
+        except (FileNotFoundError, NotADirectoryError):
             continue  # File doesn't exist, nothing to check
         except OSError as e:
             raise OSError(
@@ -3086,7 +3086,7 @@ def update_working_tree(
                 full_path = _tree_to_fs_path(repo_path, path, tree_encoding)
                 try:
                     current_stat = os.lstat(full_path)
-                except FileNotFoundError:
+                except (FileNotFoundError, NotADirectoryError):
                     continue  # File doesn't exist, nothing to check
                 except OSError as e:
                     raise OSError(
@@ -3142,7 +3142,7 @@ def update_working_tree(
                 full_path = _tree_to_fs_path(repo_path, path, tree_encoding)
                 try:
                     delete_stat: os.stat_result | None = os.lstat(full_path)
-                except FileNotFoundError:
+                except (FileNotFoundError, NotADirectoryError):
                     delete_stat = None
                 except OSError as e:
                     raise OSError(
@@ -3176,7 +3176,7 @@ def update_working_tree(
             full_path = _tree_to_fs_path(repo_path, path, tree_encoding)
             try:
                 modify_stat: os.stat_result | None = os.lstat(full_path)
-            except FileNotFoundError:
+            except (FileNotFoundError, NotADirectoryError):
                 modify_stat = None
             except OSError as e:
                 raise OSError(
@@ -3341,9 +3341,9 @@ def _check_entry_for_changes(
 
         if filter_blob_callback is not None:
             blob = filter_blob_callback(blob, tree_path)
-    except FileNotFoundError:
-        # The file was removed, so we assume that counts as
-        # different from whatever file used to exist.
+    except (FileNotFoundError, NotADirectoryError):
+        # The file was removed (or a leading directory is now a file), so
+        # we assume that counts as different from whatever file used to exist.
         return tree_path
     else:
         if blob.id != entry.sha:
